@@ -37,10 +37,11 @@
 
   Faults.  An operation may be decorated with a transient I/O fault: the first `fh.seek()` (or the
   first `fh.read()`) the operation performs on listed file `j` raises OSError (once).  `get_piece`
-  turns either into ReadError (`except OSError as e: raise ReadError(e.errno, file)`); the reader
-  of `iter_pieces` (`_iter_from_file_handle`) does so for `read`, but its `fh.seek(skip_bytes)`
-  stands BEFORE the try block: that OSError escapes as it is (finding D19d).  The handle stays in
-  the table, open and usable.
+  turns either into ReadError (`except OSError as e: raise ReadError(e.errno, file)`), and so does
+  the reader of `iter_pieces` (`_iter_from_file_handle`: `ReadError(e.errno, fh.name)` for the
+  `fh.seek(skip_bytes)` — since ac0b377; before, that seek stood outside the try block and the raw
+  OSError escaped: finding D19d — and for every `read`).  The handle stays in the table, open and
+  usable.
 
   Granularity: offsets are not part of a handle here (`fh.seek(...)` precedes every read, see
   above), a reading operation works on the inode `_get_open_file` returned.  `iter_pieces` is the
@@ -131,7 +132,6 @@ inductive Err where
   | size           -- VerifyFileSizeError
   | readNoent      -- ReadError(ENOENT)
   | readOther      -- ReadError with another errno (EISDIR)
-  | osError        -- a raw OSError (not a TorfError): `fh.seek(skip_bytes)` of `iter_pieces` is outside its try block
   | internal       -- an undocumented exception escapes `iter_pieces` (`Missing.St.failed`)
 deriving DecidableEq, Repr
 
@@ -268,10 +268,10 @@ def iterStep [Inhabited α] (c : Cfg α δ) (d : Disk α) (base : Nat) (fault : 
     let o : Obj := { sz.2 with tbl := r.2 }
     match r.1 with
     | .ok i =>
-      -- `fh.seek(skip_bytes)` (outside the try block: OSError escapes) and the first `fh.read()`
-      -- (`except OSError: raise ReadError`) come before the first new item
+      -- `fh.seek(skip_bytes)` and the first `fh.read()` come before the first new item; both:
+      -- `except OSError as e: raise ReadError(e.errno, fh.name)`
       match faultAt fault j with
-      | some isSeek => { s with obj := o, io := some (if isSeek then .osError else .readOther) }
+      | some _ => { s with obj := o, io := some .readOther }
       | Option.none => { s with st := goodFile c.L d s.st i, obj := o }
     | .error _ =>
       { s with st := badFile c.L c.sizes (bycatchView c.memo d base c.sizes.length o) s.st j .read, obj := o }
